@@ -304,6 +304,26 @@ def run_case(case, fail, stats):
             if got[0] != want[0] or (got[0] == "ok" and not same(got[1], want[1])) or (got[0] == "exc" and got[1] != want[1]):
                 fail("C04", "value-differs-after-update", {"term": t, "vals": case["vals"], "then": case["then"],
                                                            "deferred": describe(got[1]), "python": describe(want[1])})
+    elif kind == "attrsyntax":
+        # assignments written with attribute syntax on references (ref.name = value / expression), also for names that
+        # start with an underscore: the value has to land in the object the reference points to, in every build
+        env = Env(case["vals"])
+        log = []
+        o = env.box["o"]
+        for name, what in case["assign"]:
+            val = env.build(what) if isinstance(what, list) else val_py(what)
+            r = outcome(lambda: setattr(env.r["o"], name, val))
+            log.append(r[0] if r[0] == "ok" else r[1])
+            if r[0] == "ok":
+                want = outcome(lambda: env.direct(what)) if isinstance(what, list) else ("ok", val)
+                got = getattr(o, name, "<absent>")
+                if want[0] == "ok" and not same(got, want[1]):
+                    fail("C04", "attribute-assignment-lost", {"name": name, "object_holds": describe(got), "want": describe(want[1])})
+        for name, vj in case.get("then", []):
+            r = outcome(lambda: env.r.__setitem__(name, val_py(vj)))
+            log.append(r[0] if r[0] == "ok" else r[1])
+        stats["attrsyntax_cases"] = stats.get("attrsyntax_cases", 0) + 1
+        case["_val"] = case["_val0"] = repr([log, sorted((k, repr(v)) for k, v in vars(o).items()), sorted(map(str, env.m.dump()))])
     elif kind == "iop":
         env = Env(case["vals"])
         op, name = case["iop"], case["name"]
@@ -1002,6 +1022,12 @@ def cases_c04(rng, n):
     for a, b in [(7, 2), (-7, 2), (7, 0), (7.5, 2)]:
         yield {"kind": "eval", "vals": {"v0": val_json(a), "v1": val_json(b), "v2": {"int": 1}, "v3": {"int": 1}},
                "term": ["builtin", "divmod", ["ref", "v0"], [["ref", "v1"]]]}
+    # attribute syntax on references, ordinary and underscore-prefixed names
+    for names in (["u", "_scale"], ["_tmp", "w"], ["_u", "__x"], ["zz_new", "_scale"]):
+        yield {"kind": "attrsyntax", "vals": {"v0": {"float": (2.5).hex()}, "v1": {"int": 3}, "v2": {"int": 5}, "v3": {"int": 2}},
+               "assign": [[names[0], {"int": 10}], [names[1], ["bin", "mul", ["ref", "v1"], ["lit", {"int": 2}]]],
+                          [names[0], ["bin", "add", ["attr", ["ref", "o"], names[1]], ["ref", "v2"]]]],
+               "then": [["v1", {"int": 7}], ["v2", {"int": -1}]]}
     # in-place: every operator, value case and expression case
     for op in IOP:
         for a, b in [({"int": 12}, {"int": 5}), ({"int": 12}, {"int": 0}), ({"float": (2.5).hex()}, {"int": 2}), ({"bool": True}, {"bool": False})]:
@@ -1123,6 +1149,15 @@ def cases_c12(rng, n):
             yield {"kind": "mgrpickle", "vals": vals, "defs": [t], "follow": [["v0", {"float": (7.75).hex()}], ["v1", {"int": 3}]]}
             yield {"kind": "mgrpickle", "vals": vals, "defs": [t], "refattr": True,
                    "follow": [["v0", {"float": (7.75).hex()}], ["v1", {"int": 3}]]}
+    # constants that are numpy scalars of a narrow dtype: the restored expression has to compute in that dtype too
+    for lit, nm in [({"np": ["float32", 0.1]}, "v0"), ({"np": ["uint8", 250]}, "v1"), ({"np": ["int8", 100]}, "v1"),
+                    ({"np": ["float16", 0.3]}, "v0")]:
+        for op in ("mul", "add"):
+            t = ["bin", op, ["ref", nm], ["lit", lit]]
+            vals = {"v0": {"float": (7.0).hex()}, "v1": {"int": 3}, "v2": {"int": 5}, "v3": {"int": 2}}
+            yield {"kind": "pickle", "vals": vals, "term": t}
+            yield {"kind": "mgrpickle", "vals": vals, "defs": [t, ["bin", "add", ["ref", "v2"], ["lit", {"int": 1}]]],
+                   "follow": [["v0", {"float": (0.7).hex()}], ["v1", {"int": 20}], ["v0", {"float": (17.0).hex()}]]}
     for i in range(n):
         vals = gen_vals(rng, ["int", "float"])
         if rng.random() < 0.5:
@@ -1173,6 +1208,13 @@ def cases_c06(rng, n):
               [["i", 1]], [["i", "1"]], [["i", {"f": (1.0).hex()}]], [["i", -1]], [["i", "-1"]], [["i", {"t": [1, 2]}]], [["i", "(1, 2)"]],
               [["i", "a"], ["i", 0]], [["i", "a"], ["i", "0"]], [["i", {"t": [1]}]], [["i", "k"], ["i", {"t": ["a"]}]], [["i", "k"], ["i", "a"]],
               [["i", {"t": [1, 2]}]], [["i", 1], ["i", 2]], [["a", "a"], ["a", "b"]], [["i", "c['a']"]], [["i", "c"], ["i", "a"]],
+              # long keys that agree at both ends and differ in the middle / at the far end (a printer that abbreviates)
+              [["i", "lhcb1.corrector.arc45.horizontal.kick_" + "A" * 30 + "_strength_setting_for_the_squeeze_step"]],
+              [["i", "lhcb1.corrector.arc45.horizontal.kick_" + "B" * 30 + "_strength_setting_for_the_squeeze_step"]],
+              [["i", "k"], ["i", "x" * 200 + "1" + "y" * 200]], [["i", "k"], ["i", "x" * 200 + "2" + "y" * 200]],
+              [["i", {"t": [1, 2, 3, 4, 5, 6, 7]}]], [["i", {"t": [1, 2, 3, 4, 5, 6, 8]}]], [["i", {"t": [1, 2, 3, 4, 5, 6, 7, 8]}]],
+              [["i", 10 ** 60 + 7 * 10 ** 30 + 1]], [["i", 10 ** 60 + 8 * 10 ** 30 + 1]],
+              [["i", {"t": list(range(40))}]], [["i", {"t": list(range(39)) + [99]}]],
               # numpy scalars as keys (an index from np.argmax, an np.str_ name)
               [["i", {"np": ["int64", 1]}]], [["i", "a"], ["i", {"np": ["int64", 0]}]], [["i", {"np": ["str_", "a"]}], ["i", "b"]],
               [["i", {"np": ["float64", 1.0]}]]]
